@@ -6,3 +6,7 @@ export CARGO_NET_OFFLINE=true
 (cd lean && lake build TonicModel driver)
 cp -f ../repo/Cargo.lock harness/Cargo.lock
 (cd harness && cargo build --offline)
+for d in $(python3 -c "import json,glob;print(' '.join(sorted({c for f in glob.glob('props.d/*.json') for c in json.load(open(f)).get('extra_crates',[])})))"); do
+  cp -f ../repo/Cargo.lock $d/Cargo.lock
+  (cd $d && cargo build --offline)
+done
